@@ -21,6 +21,7 @@ RULE = (
     ' Also: PIL-backed images touched before the flip; groups of same-shaped images all flipped before any is inspected; one WCS on obj'
     'ects of four different heights; WCS objects that remember a foreign pixel_shape; non-default LONPOLE / LATPOLE.'
     ' Round 8: CDELT+CROTA2 form; latitude-first headers.'
+    ' Round 9: images built on array views (rotated by 180 degrees, mirrored, cropped, Fortran order).'
 )
 ASSUMPTIONS = ["astropy.wcs is the oracle for pixel -> sky"]
 
